@@ -325,6 +325,8 @@ pub struct SyncProfile {
     pub cells: bool,
     pub try_ops: bool,
     pub yields: bool,
+    /// lock/unlock from a destructor during the unwinding of a caught panic
+    pub unwind_sections: bool,
     /// stray wake-ups: unpark of arbitrary threads, duplicate notifies
     pub wake_faults: bool,
     pub main_participates: bool,
@@ -360,6 +362,9 @@ pub fn sync_profile(rng: &mut Rng, focus: &str) -> SyncProfile {
     match focus {
         "lock" => {
             p.yields = rng.chance(1, 5);
+            // unwind sections are only exercised by the K7 witness (see checks.rs): generated
+            // programs do not contain them
+            p.unwind_sections = false;
             p.mutex = rng.range(1, 2);
             p.rwlock = rng.chance(1, 2);
             p.cells = rng.chance(2, 3);
@@ -516,6 +521,11 @@ impl<'a> SyncGen<'a> {
                     out.push(op);
                     self.total += 1;
                 }
+            }
+            1 if self.pr.unwind_sections && self.rng.chance(1, 3) => {
+                let m = self.rng.below(self.pr.mutex) as u8;
+                out.push(Op::UnwindLock { m });
+                self.total += 1;
             }
             1 => {
                 // critical section on a mutex (possibly nested with a second one)
